@@ -143,3 +143,116 @@ Proof.
   - intros i Hi. destruct i as [|[|i]]; try lia; vm_compute; reflexivity.
   - intros i Hi. assert (i = 1%nat) by lia. subst. vm_compute. reflexivity.
 Qed.
+
+(* ---- catch_first_error at the level of solve_t, for every scripted model:
+   errors='raise', catch_first_error=True, the warning is issued by statement `AWarnSet i x` of pass k+1 after the
+   statements `pre`: the statements before it have stored, this one and the later ones have not; 'E', iterations = k+1,
+   SolutionError chained to the warning (cause tag 1 = RuntimeWarning) ---- *)
+Require Import SolverFacts3.
+
+Theorem f_catch_first_no_store sc d (o : fopts) t (s : fstate) p ps k pre i x rest :
+  min_iter o <= max_iter o ->
+  py_pos (List.length (status s)) t = Some p -> feasible d (List.length (status s)) p = true -> offset o = 0 ->
+  errors o = ERaise -> catch_first o = true ->
+  all_finite float fisfin (get_check float fzero d (vals_of s) p) = true ->
+  lookup p sc = Some ps -> sbefore ps = [] ->
+  (S k <= Z.to_nat (max_iter o))%nat ->
+  quiet float PrimFloat.sub PrimFloat.abs PrimFloat.ltb fisfin fzero (s_ev (List.length (status s)) sc) d o t p
+        (get_check float fzero d (vals_of s) p) (vals_of s) k ->
+  nth k (spasses ps) [] = pre ++ AWarnSet i x :: rest -> no_stop pre = true ->
+  let vk := st_after float (s_ev (List.length (status s)) sc) o t (vals_of s) k in
+  f_solve_t sc d o t s =
+  (mkState (fst (run_actions true p pre vk)) (upd p ErrorSt (status s)) (upd p (Z.of_nat (S k)) (iters s))
+           (log s ++ [EvBefore t] ++ pass_events t 1 (S k)), Raise (SolutionError (Some 1))).
+Proof.
+  intros Hmm Hp Hfeas Hoff Her Hcf Hfin Hlk Hbef Hk Hq Hnth Hns vk.
+  assert (Hpos : pos_of (List.length (status s)) t = p) by (unfold pos_of; rewrite Hp; reflexivity).
+  unfold f_solve_t.
+  pose proof (ev_exception_surfaces float PrimFloat.sub PrimFloat.abs PrimFloat.ltb fisfin fzero
+                (s_ev (List.length (status s)) sc) (s_before (List.length (status s)) sc) (s_after (List.length (status s)) sc)
+                d o t s p (vals_of s) Hmm Hp Hfeas Hoff) as HE.
+  rewrite (HE ltac:(rewrite Hfin, andb_false_r; reflexivity)
+              ltac:(unfold s_before; rewrite Hpos, Hlk, Hbef; reflexivity)
+              k (fst (run_actions true p pre vk)) 1 Hk Hq).
+  - rewrite Her. reflexivity.
+  - unfold evk, s_ev. rewrite Hpos, Hlk, Her, Hcf. cbn [is_raise andb].
+    replace (S k - 1)%nat with k by lia. rewrite Hnth. apply catch_first_warning_no_store. exact Hns.
+Qed.
+
+(* instance: pass 2 = [V1 := 2.0; warn, V0 := 5.0; V1 := 9.0]: V1 holds 2.0 (stored before the warning), V0 keeps its
+   pass-1 value 1.0 (the warning statement did not store), 9.0 was never written *)
+Definition ex7_desc : mdesc := mkDesc [0%nat] [0%nat] 0%nat 0%nat.
+Definition ex7_state : fstate :=
+  mkState [[0%float; 0%float; 0%float]; [0.5%float; 0.5%float; 0.5%float]] [Unsolved; Unsolved; Unsolved] [-1; -1; -1] [].
+Definition ex7_scripts : scripts :=
+  [(1%nat, mkPS [] [[ASet 0 1%float]; [ASet 1 2%float; AWarnSet 0 5%float; ASet 1 9%float]] [])].
+Example ex7_catch_first :
+  f_solve_t ex7_scripts ex7_desc (mkOpts 0 5 0x1.b7cdfd9d7bdbbp-34%float 0 true ERaise true) 1 ex7_state
+  = (mkState [[0%float; 1%float; 0%float]; [0.5%float; 2%float; 0.5%float]] [Unsolved; ErrorSt; Unsolved] [-1; 2; -1]
+             [EvBefore 1; EvPass 1 1; EvPass 1 2], Raise (SolutionError (Some 1))).
+Proof. vm_compute. reflexivity. Qed.
+(* without catch_first_error the statement stores and the pass completes (here: 5.0 is finite, iteration goes on) *)
+Example ex7_no_catch_first :
+  f_solve_t ex7_scripts ex7_desc (mkOpts 0 2 0x1.b7cdfd9d7bdbbp-34%float 0 false ERaise false) 1 ex7_state
+  = (mkState [[0%float; 5%float; 0%float]; [0.5%float; 9%float; 0.5%float]] [Unsolved; Failed; Unsolved] [-1; 2; -1]
+             [EvBefore 1; EvPass 1 1; EvPass 1 2], Ret false).
+Proof. vm_compute. reflexivity. Qed.
+
+(* ---- errors='ignore' vs 'replace' on the same script [1.0; nan; 1e-12; 1e-12]:
+   ignore: pass 3 starts from NaN -> not judged; pass 4 judged, converged -> '.', 4
+   replace: pass 3 is judged against the zeroed LOCAL copy -> '.', 3 although the stored value it started from is NaN ---- *)
+Definition ex8_scripts : scripts :=
+  [(1%nat, mkPS [] [[ASet 0 1%float]; [ASet 0 nan]; [ASet 0 0x1.19799812dea11p-40%float]; [ASet 0 0x1.19799812dea11p-40%float]] [])].
+Example ex8_ignore :
+  f_solve_t ex8_scripts ex_desc (mkOpts 0 5 0x1.b7cdfd9d7bdbbp-34%float 0 true EIgnore true) 1 ex_state
+  = (mkState [[0%float; 0x1.19799812dea11p-40%float; 0%float]] [Unsolved; Solved; Unsolved] [-1; 4; -1]
+             [EvBefore 1; EvPass 1 1; EvPass 1 2; EvPass 1 3; EvPass 1 4; EvAfter 1 4], Ret true).
+Proof. vm_compute. reflexivity. Qed.
+Example ex8_replace :
+  f_solve_t ex8_scripts ex_desc (mkOpts 0 5 0x1.b7cdfd9d7bdbbp-34%float 0 true EReplace true) 1 ex_state
+  = (mkState [[0%float; 0x1.19799812dea11p-40%float; 0%float]] [Unsolved; Solved; Unsolved] [-1; 3; -1]
+             [EvBefore 1; EvPass 1 1; EvPass 1 2; EvPass 1 3; EvAfter 1 3], Ret true).
+Proof. vm_compute. reflexivity. Qed.
+
+(* the premise of nonfinite_start_never_judged_partial is satisfiable: under 'ignore' the stored vector after pass 2 is
+   non-finite, so pass 3 cannot be the recorded one (it is 4) *)
+Example ex8_never_judged_hypotheses_satisfiable :
+  let o := mkOpts 0 5 0x1.b7cdfd9d7bdbbp-34%float 0 true EIgnore true in
+  errors o <> EReplace /\ List.length (iters ex_state) = List.length (status ex_state) /\
+  all_finite float fisfin (chkseq float fzero (s_ev 3 ex8_scripts) ex_desc o 1 1%nat
+                                  (get_check float fzero ex_desc (vals_of ex_state) 1%nat) (vals_of ex_state) (3 - 1)) = false /\
+  snd (f_solve_t ex8_scripts ex_desc o 1 ex_state) = Ret true.
+Proof. cbv zeta. repeat split; try (vm_compute; congruence). Qed.
+
+(* the invariant over arbitrary call sequences, with the alphabet clause tied to the regenerated SolutionStatus values *)
+Section CallsAlphabet.
+  Variable num : Type.
+  Variables (sub : num -> num -> num) (absf : num -> num) (ltb : num -> num -> bool) (isfin : num -> bool) (zero : num).
+  Variables (ev before after : hook num).
+  Lemma calls_status_invariant_alphabet cs (s : mstate num) :
+    let s' := run_calls num sub absf ltb isfin zero ev before after cs s in
+    List.length (status s') = List.length (status s) /\ List.length (iters s') = List.length (iters s) /\
+    forall q x, nth_error (status s') q = Some x ->
+      In (st_char x) Generated.status_values /\
+      (nth_error (status s) q = Some x \/
+       exists c, In c cs /\ py_pos (List.length (status s)) (call_t num c) = Some q /\
+         (x = Solved \/ x = Failed \/ (x = Skipped /\ errors (call_opts num c) = ESkip) \/ (x = ErrorSt /\ errors (call_opts num c) = ERaise))).
+  Proof.
+    pose proof (calls_status_invariant num sub absf ltb isfin zero ev before after cs s) as H. cbv zeta in *.
+    destruct H as (H1 & H2 & H3). split; [exact H1|]. split; [exact H2|].
+    intros q x Hq. split; [apply status_always_in_alphabet|apply H3; exact Hq].
+  Qed.
+End CallsAlphabet.
+
+(* a non-trivial call sequence: period 1 under 'raise' ends 'E' at pass 2 (the stored value is now inf); solved again
+   under 'skip' (spelled t = -2) it starts from that non-finite value, is not rejected, and ends 'S'; then period 2 with
+   max_iter 0 under failures='ignore' ends 'F': statuses [-, S, F] *)
+Example ex9_call_sequence :
+  let c1 := mkCall float ex_desc (mkOpts 0 5 0x1.b7cdfd9d7bdbbp-34%float 0 true ERaise false) 1 in
+  let c2 := mkCall float ex_desc (mkOpts 0 5 0x1.b7cdfd9d7bdbbp-34%float 0 true ESkip true) (-2) in
+  let c3 := mkCall float ex_desc (mkOpts 0 0 0x1.b7cdfd9d7bdbbp-34%float 0 false ERaise true) 2 in
+  status (run_calls float PrimFloat.sub PrimFloat.abs PrimFloat.ltb fisfin fzero (s_ev 3 ex6_scripts) (s_before 3 ex6_scripts)
+                    (s_after 3 ex6_scripts) [c1; c2; c3] ex_state) = [Unsolved; Skipped; Failed]
+  /\ status (run_calls float PrimFloat.sub PrimFloat.abs PrimFloat.ltb fisfin fzero (s_ev 3 ex6_scripts) (s_before 3 ex6_scripts)
+                    (s_after 3 ex6_scripts) [c1] ex_state) = [Unsolved; ErrorSt; Unsolved].
+Proof. cbv zeta. split; vm_compute; reflexivity. Qed.
